@@ -1,6 +1,7 @@
 package seq
 
 import (
+	"strings"
 	"math"
 	"bytes"
 	"encoding/json"
@@ -233,14 +234,31 @@ func runPersist(pc *PersistCase, generate bool, nops int, rng *core.Rng) (out pe
 
 // RunPersist runs the round-trip cases of one shard (property C19).
 func RunPersist(col *core.Collector, tier string, seed uint64, shard, nshards int, replayDir string) {
+	runPersistFor(col, "C19", tier, seed, shard, nshards, replayDir)
+}
+
+// RunPersistExpired is the persistence part of C03: the same round trips under an expiry policy, a quarter as
+// many, judged by one relation only - nothing that was expired at the load time (or absent) is loaded.
+func RunPersistExpired(col *core.Collector, tier string, seed uint64, shard, nshards int, replayDir string) {
+	runPersistFor(col, "C03", tier, seed, shard, nshards, replayDir)
+}
+
+func runPersistFor(col *core.Collector, prop, tier string, seed uint64, shard, nshards int, replayDir string) {
 	col.Note("rule: a source cache driven by a generated sequence is saved, the clock is offset (0, small, exactly a deadline, large) and the data is loaded into an empty cache of the same configuration with an equal, larger or smaller maximum; non-trivial = at least 2 entries saved; distinct = hash of (config, ops, offset, target maximum)")
 	n := 24000
 	if tier == "thorough" {
 		n = 1500000
 	}
+	prof := Profiles["mix"]
+	if prop == "C03" {
+		n /= 4
+		prof = Profiles["expiry"]
+	}
 	for i := shard; i < n; i += nshards {
 		rng := core.NewRng(core.Derive(seed, core.StrLabel("C19"), uint64(i)))
-		prof := Profiles["mix"]
+		if prop != "C19" {
+			rng = core.NewRng(core.Derive(seed, core.StrLabel(prop), core.StrLabel("persist"), uint64(i)))
+		}
 		pc := &PersistCase{Engine: "persist", Seed: seed, Index: i, Cfg: GenConfig(rng, prof)}
 		nops := 10 + rng.Intn(120)
 		out := runPersist(pc, true, nops, rng)
@@ -265,11 +283,19 @@ func RunPersist(col *core.Collector, tier string, seed uint64, shard, nshards in
 		if col.NumSamples() < 2 && out.saved >= 2 {
 			col.Sample(map[string]any{"config": pc.Cfg, "ops": len(pc.Ops), "offset": pc.Offset, "target_max": pc.TargetMax, "saved": out.saved, "loaded": out.loaded})
 		}
+		if prop == "C03" {
+			col.Count("persist.round_trips", 1)
+			col.Count("persist.entries_expired_at_load", int64(out.expired))
+			if out.mismatch != "" && !strings.Contains(out.mismatch, "was loaded although") {
+				col.Count("stopped_on_other_class.persist", 1)
+				continue
+			}
+		}
 		if out.mismatch != "" {
-			path := filepath.Join(replayDir, fmt.Sprintf("C19-persist-%x.json", core.HashJSON(pc)))
+			path := filepath.Join(replayDir, fmt.Sprintf("%s-persist-%x.json", prop, core.HashJSON(pc)))
 			data, _ := json.MarshalIndent(map[string]any{"persist_case": pc, "mismatch": out.mismatch, "ops_readable": opStrings(pc.Ops)}, "", " ")
 			os.WriteFile(path, data, 0o644)
-			col.Violation(core.Violation{Property: "C19", Signature: "persist:" + sigOf(out.mismatch), Detail: out.mismatch + fmt.Sprintf(" (config %+v, offset %d, target maximum %d)", pc.Cfg, pc.Offset, pc.TargetMax), Replay: path})
+			col.Violation(core.Violation{Property: prop, Signature: "persist:" + sigOf(out.mismatch), Detail: out.mismatch + fmt.Sprintf(" (config %+v, offset %d, target maximum %d)", pc.Cfg, pc.Offset, pc.TargetMax), Replay: path})
 			if col.NumViolations() >= 8 {
 				break
 			}
